@@ -108,6 +108,33 @@ class Gen:
     def program(self):
         return "\n".join(self.statement() for _ in range(self.r.randrange(1, 4))) + "\n"
 
+    def program_at(self, placement):
+        """the same statements at another kind of position, followed by a dump of the names they bound"""
+        body = "\n".join(self.statement() for _ in range(self.r.randrange(1, 4))) + "\n__dump(locals())\n"
+        ind = lambda t, n=1: "".join(("    " * n + l + "\n") for l in t.rstrip("\n").split("\n"))
+        if placement == "function":
+            return "def host():\n" + ind(body) + "host()\n"
+        if placement == "class":
+            return "class Host:\n" + ind(body)
+        if placement == "method":
+            return "class Host:\n    def meth(self):\n" + ind(body, 2) + "Host().meth()\n"
+        if placement == "for-body":
+            return "for it_ in [1, 2]:\n" + ind(body)
+        if placement == "while-body-in-function":
+            return "def host():\n    c_ = 2\n    while c_:\n        c_ -= 1\n" + ind(body, 2) + "host()\n"
+        if placement == "if-else":
+            return "if __probe(0) is None:\n    pass\nelse:\n" + ind(body)
+        if placement == "function-in-loop":
+            return "for it_ in [1, 2]:\n    def inl():\n" + ind(body, 2) + "    inl()\n"
+        if placement == "after-guard":
+            return "for it_ in [1, 2, 3]:\n    if it_ == 3:\n        break\n    if it_ == 1:\n        continue\n" + ind(body)
+        if placement == "class-in-function":
+            return "def host():\n    class Loc:\n" + ind(body, 2) + "host()\n"
+        return body
+
+
+PLACEMENTS = ["module", "function", "class", "method", "for-body", "while-body-in-function", "if-else", "function-in-loop", "after-guard", "class-in-function"]
+
 
 def run(code, mode, inplace):
     log = []
@@ -120,6 +147,12 @@ def run(code, mode, inplace):
         log.append(k)
         return cls(k)
     g["__probe"] = probe
+
+    def dump(ns):
+        import re
+        log.append(("names", sorted((k, getattr(v, "k", None) if isinstance(v, g["_Obj"]) else type(v).__name__)
+                                    for k, v in ns.items() if re.fullmatch(r"n\d+|f\d+", k))))
+    g["__dump"] = dump
     try:
         if mode == "exec":
             exec(compile(code, "<s>", "exec"), g)
